@@ -1,6 +1,6 @@
 import re
 from sqv.driver import Obligation
-from sqv.props.c06 import lrc_precheck, lrc_obligations
+from sqv.props.c06 import lrc_precheck, both_prechecks, lxc_obligations, lrc_obligations
 
 CANDIDATES = ['a', 'ab', '_1', '%a b%', '%.%', 'if', '1', '12', '1.5', '"a"', "'a'", 'r"a"', '"a\\\nb"', "'\\\n'", '"\\n"', '""',
               '# c', '#', '#a;b', '(', ')', '[', ']', '{', '}', '"\\\n\\\n"', 'for', 'x9']
@@ -27,8 +27,8 @@ def plan(ctx):
         obs.append(Obligation(f"lexer.rule_step.{name}", "xh", "c20", "rule_step", param={"rule": name, "pool": pool}, timeout=T,
                               bounds=f"line, depth unbounded; matched text from {pool!r} (index symbolic)",
                               desc=f"{name}: line counter advances by the line feeds in the matched text"))
-    obs.append(Obligation("p_error.message", "xh", "c20", "p_error_message", timeout=T, extra={"format_stub": False},
-                          bounds="token line and lexer line 1..5 (formatted, hence bounded), token from 8 (type, text) samples incl. NUMBER (Decimal value) and the ';' separator",
+    obs.append(Obligation("p_error.message", "xh", "c20", "p_error_message", timeout=T * 4, extra={"format_stub": False},
+                          bounds="token line and lexer line 1..4 (formatted, hence bounded), token from 8 (type, text) samples incl. NUMBER (Decimal value) and the ';' separator",
                           desc="message contains the token text and the token's OWN line"))
     obs.append(Obligation("p_error.eof", "xh", "c20", "p_error_eof", timeout=T, extra={"format_stub": False}, bounds="-",
                           desc="p_error(None) reports an unexpected end of input"))
@@ -39,8 +39,9 @@ def plan(ctx):
                               bounds="one of 12 concrete programs (strings and comments containing brackets/quotes/#, nested multi-line literals, %..% names); "
                                      "rewrite kind and position indices symbolic (finite domain enumerated through the solver, bodies run natively on the real lexer+parser)",
                               desc=f"program {i}: stray token from 7 samples inserted at (or text truncated at) every token boundary, under LF / CRLF / ; variants: message names the reported token and 1 + number of line feeds before it"))
+    obs += lxc_obligations(ctx, ['linefeeds'])
     return {
-        "precheck": lrc_precheck,
+        "precheck": both_prechecks,
         "obligations": obs, "uncovered": uncovered,
         "explanation": "CrossHair (z3) symbolic execution of the real lexer rule functions from an arbitrary (line, bracket depth) "
                        "state satisfying the invariant 'lineno = 1 + line feeds before the offset', and of p_error.",
